@@ -135,10 +135,9 @@ func (t *Task) resolveMod(env *ExprEnv, item, src string) []modTarget {
 		}
 		obj, index, _ := types.LookupFieldOrMethod(x.T, true, env.pkgTypes(), e.Sel.Name)
 		if obj == nil {
-			if n, ok := types.Unalias(base).(*types.Named); ok && n.Obj().Pkg() != nil {
-				obj, index, _ = types.LookupFieldOrMethod(x.T, true, n.Obj().Pkg(), e.Sel.Name)
-			}
+			obj, index = env.lookupAnyPkg(x.T, e.Sel.Name)
 		}
+		_ = base
 		if obj == nil {
 			// ghost through embedding
 			if v, ok := env.ghostThroughEmbeddingTarget(x, e.Sel.Name); ok {
@@ -258,35 +257,23 @@ func (a *Activation) applyContract(con *FuncContract, fn *ssa.Function, args []V
 		pre = st.clone()
 		env.st, env.old, env.callBase = pre, pre, pre
 	}
+	// values of opaque calls the callee will make are nameable relative to the pre-state
+	for _, c := range con.Clauses {
+		if c.Kind == "ext" || c.Kind == "oldlet" {
+			vars[c.Name] = env.evalSrc(c.Expr, c.Src)
+		}
+	}
 	// frame
 	targets, havoc, _ := t.resolveMods(env, con)
 	post := st
 	if havoc {
 		post = t.havocState(st, t.eng.keepAcrossOpaque)
-		for _, g := range []string{"$calls", "$tick", "$otick"} {
-			if _, ok := t.arrSort[g]; ok || g == "$calls" || g == "$tick" {
-				if g == "$calls" {
-					t.callsArr(st)
-				}
-				if g == "$tick" {
-					t.regArray("$tick", "Int")
-				}
-				if _, ok := t.arrSort[g]; !ok {
-					continue
-				}
-				old := t.lookup(st, g)
-				nv := t.fresh(g+"@c", t.sortOfArray(g))
-				t.set(post, g, nv)
-				if g == "$tick" {
-					t.assume(st.pc, "(>= "+nv+" "+old+")")
-				}
-			}
-		}
-		for name := range t.arrSort {
-			if strings.HasPrefix(name, "$oarg") {
-				t.set(post, name, t.fresh(name+"@c", t.sortOfArray(name)))
-			}
-		}
+		// logical time advances; the call counters change only where the contract says so (modifies calls(f))
+		t.regArray("$tick", "Int")
+		old := t.lookup(st, "$tick")
+		nv := t.fresh("$tick@c", "Int")
+		t.set(post, "$tick", nv)
+		t.assume(st.pc, "(>= "+nv+" "+old+")")
 	} else {
 		post = st.clone()
 	}
@@ -296,7 +283,8 @@ func (a *Activation) applyContract(con *FuncContract, fn *ssa.Function, args []V
 			calls := t.callsArr(post)
 			nv := t.fresh("calls@c", "Int")
 			t.assume(st.pc, "(>= "+nv+" "+sApp("select", calls, m.callsOf)+")")
-			t.set(post, "$calls", sApp("store", calls, m.callsOf, nv))
+			// a nil function value is never called (nilcall obligations): the counter of "nil" does not move
+			t.set(post, "$calls", sIte(sEq(m.callsOf, "0"), calls, sApp("store", calls, m.callsOf, nv)))
 			t.regArray("$tick", "Int")
 			tk := t.lookup(post, "$tick")
 			ntk := t.fresh("tick@c", "Int")
@@ -306,7 +294,7 @@ func (a *Activation) applyContract(con *FuncContract, fn *ssa.Function, args []V
 				if strings.HasPrefix(name, "$oarg") || name == "$otick" {
 					cur := t.lookup(post, name)
 					inner := t.fresh(name+"@ci", strings.TrimSuffix(strings.TrimPrefix(t.sortOfArray(name), "(Array Int "), ")"))
-					t.set(post, name, sApp("store", cur, m.callsOf, inner))
+					t.set(post, name, sIte(sEq(m.callsOf, "0"), cur, sApp("store", cur, m.callsOf, inner)))
 				}
 			}
 		case m.isPrefix:
@@ -348,8 +336,11 @@ func (a *Activation) applyContract(con *FuncContract, fn *ssa.Function, args []V
 	penv := &ExprEnv{t: t, st: post, old: pre, vars: vars, pkg: pkg, callBase: pre}
 	for _, c := range con.Clauses {
 		switch c.Kind {
-		case "let", "ext":
+		case "let":
 			vars[c.Name] = penv.evalSrc(c.Expr, c.Src)
+		case "premise":
+			// environment premise of the callee: part of what the caller may rely on as well (listed)
+			t.assume(st.pc, penv.evalBool(c.Expr, c.Src))
 		case "ensures":
 			t.assume(st.pc, penv.evalBool(c.Expr, c.Src))
 		case "assume":
@@ -549,9 +540,6 @@ func (t *Task) frameCheck(act *Activation, con *FuncContract, st0, out *State) {
 		if havoc && !strings.HasPrefix(name, "$") && !t.eng.keepAcrossOpaque(name) {
 			continue
 		}
-		if havoc && name == "$calls" {
-			continue
-		}
 		a1 := t.lookup(out, name)
 		a0 := t.lookup(st0, name)
 		if a1 == a0 {
@@ -581,6 +569,7 @@ func (t *Task) frameCheck(act *Activation, con *FuncContract, st0, out *State) {
 			continue
 		}
 		r := t.fresh("frame:r", "Int")
+		t.modelSyms = append(t.modelSyms, r)
 		var prem []string
 		if !strings.HasPrefix(name, "$") {
 			prem = append(prem, "(< "+sApp(age, r)+" "+now0+")")
